@@ -87,6 +87,11 @@ fn al(s: &str) -> Alias {
     Alias::new(s)
 }
 fn atom_expr(i: u8) -> SimpleExpr {
+    if i == 3 {
+        // the fourth atom is a plain custom fragment with a top-level OR (same truth value as `"s" = 1`): a fragment must
+        // keep its own grouping inside the conjunction
+        return Expr::cust("s = 1 OR s = 1");
+    }
     Expr::col(al(ATOMS[i as usize])).eq(1)
 }
 
@@ -298,6 +303,8 @@ fn eval_pexpr(e: &PExpr, a: &[T3; 4]) -> Result<T3, String> {
                 let i = ATOMS.iter().position(|x| *x == c[0]).ok_or_else(|| format!("unknown atom {:?}", c))?;
                 a[i]
             }
+            // the bare word of the custom-fragment atom
+            (PExpr::Kw(c), PExpr::Num(n)) if n == "1" && ATOMS.contains(&c.as_str()) => a[ATOMS.iter().position(|x| *x == c.as_str()).unwrap()],
             _ => return Err(format!("unexpected comparison {:?}", e)),
         },
         other => return Err(format!("unexpected predicate node {:?}", other)),
